@@ -302,9 +302,20 @@ func c15CLI(o *cli.Opts, run *evid.Run, files []string, full string) {
 		// a command still running after its watchdog (20 s for start, 3 min otherwise: >100x the time a complete
 		// file of this size takes) either went on to serve or hangs on the truncated file: both are violations
 		bad := res.Exit == 0 || res.TimedOut
-		if bad {
+		if marks := proc.CrashMarksIn(string(res.Stderr) + string(res.Stdout)); len(marks) > 0 {
+			bad = true
+			run.Violate(key+"/panic", fmt.Sprintf("`gnark-mbu %s` on truncated keys file %s crashes instead of failing with an error: %v", j.cmd, name, marks), map[string]any{"stderr_tail": tailOf(string(res.Stderr), 1500)})
+		}
+		if res.Exit == 0 || res.TimedOut {
 			run.Violate(key, fmt.Sprintf("`gnark-mbu %s` on truncated keys file %s: exit=%d still_running_after_watchdog=%v", j.cmd, name, res.Exit, res.TimedOut), sample)
 		}
 		run.Case("cli/"+j.cmd, true, key, bad, sample)
 	})
+}
+
+func tailOf(s string, n int) string {
+	if len(s) > n {
+		return s[len(s)-n:]
+	}
+	return s
 }
